@@ -252,13 +252,19 @@ PROPS["C02"] = {
 
 PROPS["C06"] = {
     "lean_modules": ["AvroModel.Props.C06"],
-    "required_theorems": ["read_total", "skip_total", "next_total", "next_rejects", "array_count_overflow_rejected", "parse_time_total"],
+    "required_theorems": ["read_total", "skip_total", "next_total", "next_rejects", "array_count_overflow_rejected", "parse_time_total", "read_fuel_mono", "skip_fuel_mono", "read_terminates", "skip_terminates", "read_result", "skip_result", "termination_needs_sane"],
     "harness": [("MAL", "C06")],
     "careful": True,
     "level_text": "Proof (partial by the allocation clause): for every codec tree, every byte string, every destination and every step budget the "
                   "model of Codec.Read / Codec.Skip never panics (induction over the budget through all ten mutually recursive functions; slice "
                   "bounds of ReadBuf.Next, union selector range, array count overflow), and timestamp parsing never panics (C18.total); the "
-                  "container reader and the schema parser are covered by C07.no_panic and C14. Not proved: an allocation / step bound - it is false "
+                  "container reader and the schema parser are covered by C07.no_panic and C14. TERMINATION is proved too: the modelled loops and "
+                  "recursion of Read and Skip halt on every input (read_terminates, skip_terminates: there is a budget from which on the result is "
+                  "stable and is not 'out of budget'; read_result / skip_result: that result is a value with no more unread input than before, or an "
+                  "error), by induction over the codec tree, the input length for block loops and the count for item loops (zero-width items "
+                  "included); the budget is monotone (read_fuel_mono). The only hypothesis, Env.Sane - a user-registered custom codec does not "
+                  "return more unread input than it was given - is necessary (termination_needs_sane exhibits a diverging environment). "
+                  "Not proved: an allocation / step bound proportional to the input - it is false "
                   "for arrays (known finding D14: pre-allocation and iteration driven by the declared block count). Tie: a malformed stream against "
                   "the real Read, Skip, ReadFile and SchemaFromString+Codec: every single-field mutation of every varint of generated valid "
                   "encodings to negative / zero / maximal / overflowing / truncated, truncation at every field boundary, bit flips, random bytes, "
